@@ -133,9 +133,17 @@ pub fn run_case(spec: &MbSpec, case: &ScCase, st: &mut Stats) -> Result<(), Viol
             break;
         };
         let actor = match &op {
+            Op::Connect => {
+                trace.lines.push("new connection".to_string());
+                ctx = "CONNECT".into();
+                None
+            }
             Op::Line(c, l) => {
                 trace.lines.push(format!("c{}: {}", c, l));
                 ctx = l.split(' ').next().unwrap_or("").to_ascii_uppercase();
+                if !eng.model.is_registered(*c) {
+                    ctx = "REGLINE".into();
+                }
                 if ctx == "MODE" {
                     let t = l.split(' ').nth(1).unwrap_or("");
                     ctx = if t.starts_with('#') || t.starts_with('&') { "MODE#".into() } else { "MODEu".into() };
@@ -148,7 +156,7 @@ pub fn run_case(spec: &MbSpec, case: &ScCase, st: &mut Stats) -> Result<(), Viol
                 None
             }
             Op::Close(c, k) => {
-                ctx = "CLOSE".into();
+                ctx = if eng.model.is_registered(*c) { "CLOSE".into() } else { "CLOSEUNREG".into() };
                 trace.lines.push(format!("c{} closes {:?}", c, k));
                 if let Some(n) = eng.model.nick_of(*c) {
                     xs.left_by_disconnect.insert(n.to_string());
